@@ -532,3 +532,84 @@ def filename_obligations(chk, src_root):
         chk.lemma(f'file name: {ln} fraction digits without trailing zeros determine the microseconds',
                   z3.ForAll([f1, f2, a], z3.Implies(z3.And(0 <= f1, f1 < 10**6, 0 <= f2, f2 < 10**6, f1 == a * 10**(6 - ln), f2 == a * 10**(6 - ln)), f1 == f2)))
     chk.assume('civil calendar fields (year..second) of the UTC instant are a bijection on whole seconds for years 0001-9999; format_datetime as proved in C15 (years are written with four digits)')
+
+
+# ------------------------------------------------------------------ MemorySource.query: exactly the stored objects satisfying the query, the source's own filters and the handed-down
+# ones; the caller's query object is never written to (C12: "filters attached to a source apply to every one of its answers"; C13: arguments stay what they were)
+Q_VIEW = z3.Const('query.view', E.SetS); Q_NONE = z3.Bool('query.isnone')
+
+
+def memory_query_contract():
+    from vf.pyvc.lib import rebinding
+    qparam = Val('opt:set', (Q_NONE, Val('set', Q_VIEW, x={'param': 'query'})))
+    down = Val('opt:set', (DOWN_NONE, Val('set', DOWN_F, x={'param': '_composite_filters'})))
+
+    def nonempty(t):
+        u = z3.FreshConst(E.S, 'u'); return z3.Exists([u], t[u])
+
+    def h_filterset(x, e, p, site):
+        """callee contract of FilterSet(filters) (FilterSet.add proved): a NEW object whose view is the argument's (empty for None)"""
+        if len(e.args) != 1 or e.keywords: raise Unsupported(site + ' FilterSet call shape')
+        for p1, v in x.ev(e.args[0], p):
+            if isinstance(v, Exc): yield p1, v; continue
+            u = z3.FreshConst(E.S, 'u')
+            if v.sort == 'opt:set': t = z3.Lambda([u], z3.And(z3.Not(v.t[0]), v.t[1].t[u]))
+            elif v.sort == 'set': t = v.t
+            elif v.sort == 'none': t = E.EMPTY
+            else: raise Unsupported(site + ' FilterSet of ' + v.sort)
+            yield p1, Val('set', t, x={'fresh': True})
+
+    def m_add(x, recv, args, e, p, site):
+        tag = (recv.x or {}).get('param')
+        if tag:
+            x.oblige(f'frame: the argument `{tag}` is not modified (in-place `{ast.unparse(e)[:60]}`)', p.pc, z3.BoolVal(False), p.exact, 'frame')
+        a = args[0]; u = z3.FreshConst(E.S, 'u')
+        at = z3.Lambda([u], z3.And(z3.Not(a.t[0]), a.t[1].t[u])) if a.sort == 'opt:set' else (a.t if a.sort == 'set' else None)
+        if at is None: raise Unsupported(site + ' add of ' + a.sort)
+        new = Val('set', z3.Lambda([u], z3.Or(recv.t[u], at[u])), x=dict(recv.x or {}))
+        q = p.fork(); tgt = e.func.value
+        if not isinstance(tgt, ast.Name): raise Unsupported(site + ' add through ' + ast.unparse(tgt))
+        q.env[tgt.id] = new
+        yield q, NONE
+
+    def h_is_filterset(x, v, p, site):
+        tag = (v.x or {}).get('param') if v.sort == 'set' else None
+        if v.sort == 'none': yield p, Bool(False)
+        elif v.sort == 'set' and (v.x or {}).get('fresh'): yield p, Bool(True)
+        elif tag == 'query': yield p, Bool(z3.Bool('isinstance(query, FilterSet)'))          # the caller may hand in a FilterSet, a list or a single Filter
+        elif tag: yield p, Bool(True)
+        else: raise Unsupported(site + ' isinstance(FilterSet) of ' + v.sort)
+
+    def attr_filters(x, o, p, site): yield p, Val('set', SELF_F, x={'param': 'self.filters', 'nonempty': nonempty(SELF_F)})
+
+    def hook_all(x, e, p): yield p, Val('objset', STORED)         # every version of every family and every unversioned object held (assumed of the chain over self._data)
+
+    def h_acf(x, e, p, site):
+        """callee contract of apply_common_filters (proved): the objects of the first argument for which every filter of the second holds"""
+        for p1, vs in x.ev_seq(list(e.args), p):
+            if isinstance(vs, Exc): yield p1, vs; continue
+            objs, fl = vs; u = z3.FreshConst(E.S, 'u')
+            if fl.sort == 'opt:set': fl = Val('set', z3.Lambda([u], z3.And(z3.Not(fl.t[0]), fl.t[1].t[u])))          # None: no filter
+            if objs.sort != 'objset' or fl.sort != 'set': raise Unsupported(site + f' apply_common_filters({objs.sort}, {fl.sort})')
+            x.oblige('call(apply_common_filters): the filters applied are exactly the query, the source\'s own filters and the ones handed down', p1.pc,
+                     z3.ForAll([u], fl.t[u] == z3.Or(z3.And(z3.Not(Q_NONE), Q_VIEW[u]), SELF_F[u], z3.And(z3.Not(DOWN_NONE), DOWN_F[u]))), p1.exact, 'call-requires')
+            yield p1, Val('objset', z3.Lambda([u], z3.And(objs.t[u], SATALL(fl.t, u))))
+
+    def h_list(x, e, p, site):
+        for p1, vs in x.ev_seq(list(e.args), p):
+            yield p1, (vs if isinstance(vs, Exc) else vs[0])
+
+    def ens(a, r):
+        u = z3.String('u!mq'); f = z3.FreshConst(E.S, 'f')
+        if r.sort != 'objset': return z3.BoolVal(False)
+        union = z3.Lambda([f], z3.Or(z3.And(z3.Not(Q_NONE), Q_VIEW[f]), SELF_F[f], z3.And(z3.Not(DOWN_NONE), DOWN_F[f])))
+        return z3.ForAll([u], r.t[u] == z3.And(STORED[u], SATALL(union, u)))
+    CHAIN = 'itertools.chain.from_iterable((value.all_versions.values() if isinstance(value, _ObjectFamily) else [value] for value in self._data.values()))'
+    return Contract('stix2/datastore/memory.py::MemorySource.query', props=['C12', 'C11', 'C13'],
+                    params={'self': Val('memsource', x={}), 'query': qparam, '_composite_filters': down},
+                    ensures=[('exactly the stored objects for which every filter of the query, of the source and of the composite above holds', ens)],
+                    raises={}, handlers={'FilterSet': h_filterset, 'apply_common_filters': h_acf, 'list': h_list, 'isinstance:FilterSet': h_is_filterset},
+                    expr_hooks={CHAIN: hook_all},
+                    registry_ext={'attrs': {('memsource', 'filters'): attr_filters}, 'methods': {('.add', 'set'): m_add}},
+                    assumptions=['callee contracts of MemorySource.query: FilterSet(filters) builds a new object with the argument\'s view and FilterSet.add unites views (proved), apply_common_filters '
+                                 '(proved); the chain over self._data enumerates every stored version (assumed; the store histories of the bounded part exercise it); SATALL is extensional in the filter set'])
